@@ -139,7 +139,13 @@ Proof. exact UnicodeSane_intro. Qed.
 (* ---- the round trip proper, for whole files.  `items` is the file in source order (globals with the
    four quantifier forms and optional default, `inherit .name`, attribute shorthands, stanzas with their
    query text); file_text is its rendering under layout L (a leading gap, then every item followed by
-   a gap), file_items_loc the same items with every location set to the position of the construct's
+   a gap).  A global is written `global` gap NAME, the quantifier character `?` `*` `+` (none for One)
+   directly after the name, and optionally ARBITRARY-gap `=` ARBITRARY-gap "default"; both gaps and the
+   gap behind the item may be empty (`global x="a"`, `global x;comment`, `global x` at the end of the
+   input).  The only forced separator: behind a global that ends with its bare name (no quantifier
+   character, no default) the gap is non-empty when the next item starts with an identifier character
+   (it would continue the name) or with `?` `*` `+` (it would be read as the quantifier) - next_clash.
+   file_items_loc is the same items with every location set to the position of the construct's
    first character (global, shorthand: their NAME; stanza: the first character of its query) and the
    scan arms numbered in order of appearance; file_of_items is the File that parse_into_file fills
    (globals and stanzas in order, inherited names as a set, shorthands as a map by name).
@@ -267,5 +273,59 @@ Proof.
   cbv zeta. split; [|vm_compute; reflexivity].
   apply (parse_render_file ex_ext [[97; 43]] ex_items ex_layout ex_ext_sane ex_items_wf ex_layout_wf).
   - cbn [queries_ok ex_items]. repeat split. exists 1. split; reflexivity.
+  - reflexivity.
+Qed.
+
+(* ---- regression (repaired parse_quantifier): no whitespace is needed after a global's name.
+   `global x="a"` LF `(m) {}` parses to the global x, quantifier One, default "a", located at its name;
+   before the repair the `=` was consumed as a (wrong) quantifier character: ExpectedQuantifier ---- *)
+Definition ex_global_eq_text : str :=
+  [103; 108; 111; 98; 97; 108; 32; 120; 61; 34; 97; 34; 10; 40; 109; 41; 32; 123; 125].
+Example ex_global_default_without_space :
+  parse ex_ext (fuel_of ex_global_eq_text) ex_global_eq_text =
+    POk {| f_globals := [{| gl_name := [120]; gl_quant := QOne; gl_default := Some [97]; gl_loc := (0, 7) |}];
+           f_inherited := []; f_shorthands := [];
+           f_stanzas := [{| st_stmts := []; st_full_stanza_idx := 1; st_full_file_idx := u32_max; st_start := (1, 0) |}] |} [].
+Proof. vm_compute. reflexivity. Qed.
+(* the other formerly rejected layouts: `global x;c` LF, `global x= "a"`, `global x?="a"`, each before `(m) {}` *)
+Example ex_global_comment_without_space :
+  let t := [103; 108; 111; 98; 97; 108; 32; 120; 59; 99; 10; 40; 109; 41; 32; 123; 125] in
+  exists z, parse ex_ext (fuel_of t) t =
+    POk {| f_globals := [{| gl_name := [120]; gl_quant := QOne; gl_default := None; gl_loc := (0, 7) |}];
+           f_inherited := []; f_shorthands := []; f_stanzas := [z] |} [].
+Proof. eexists. vm_compute. reflexivity. Qed.
+Example ex_global_eq_then_space :
+  let t := [103; 108; 111; 98; 97; 108; 32; 120; 61; 32; 34; 97; 34; 10; 40; 109; 41; 32; 123; 125] in
+  exists z, parse ex_ext (fuel_of t) t =
+    POk {| f_globals := [{| gl_name := [120]; gl_quant := QOne; gl_default := Some [97]; gl_loc := (0, 7) |}];
+           f_inherited := []; f_shorthands := []; f_stanzas := [z] |} [].
+Proof. eexists. vm_compute. reflexivity. Qed.
+Example ex_global_quantifier_then_eq :
+  let t := [103; 108; 111; 98; 97; 108; 32; 120; 63; 61; 34; 97; 34; 10; 40; 109; 41; 32; 123; 125] in
+  exists z, parse ex_ext (fuel_of t) t =
+    POk {| f_globals := [{| gl_name := [120]; gl_quant := QOpt; gl_default := Some [97]; gl_loc := (0, 7) |}];
+           f_inherited := []; f_shorthands := []; f_stanzas := [z] |} [].
+Proof. eexists. vm_compute. reflexivity. Qed.
+
+(* these texts are instances of parse_render_file: the layout without any gap writes
+   `global x="a"global y(m){}` and `global y` may also end the input *)
+Definition ex_layout_tight : layout :=
+  {| l_gap := fun _ => []; l_flag := fun _ => false; l_esc := fun _ => []; l_zeros := fun _ => 0%nat |}.
+Definition ex_items_tight : list item :=
+  [IGlobal {| gl_name := [120]; gl_quant := QOne; gl_default := Some [97]; gl_loc := (0, 0) |};
+   IGlobal {| gl_name := [121]; gl_quant := QOne; gl_default := None; gl_loc := (0, 0) |};
+   IStanza [40; 109; 41] {| st_stmts := []; st_full_stanza_idx := 1; st_full_file_idx := 0; st_start := (0, 0) |};
+   IGlobal {| gl_name := [122]; gl_quant := QOne; gl_default := None; gl_loc := (0, 0) |}].
+Example ex_file_tight_roundtrip :
+  let text := file_text [] ex_ext ex_layout_tight ex_items_tight in
+  parse ex_ext (fuel_of text) text = POk (file_of_items (file_items_loc [] ex_ext ex_layout_tight ex_items_tight)) []
+  /\ text = [103; 108; 111; 98; 97; 108; 32; 120; 61; 34; 97; 34; 103; 108; 111; 98; 97; 108; 32; 121; 40; 109; 41; 123; 125;
+             103; 108; 111; 98; 97; 108; 32; 122].
+Proof.
+  cbv zeta. split; [|vm_compute; reflexivity].
+  apply (parse_render_file ex_ext [] ex_items_tight ex_layout_tight ex_ext_sane).
+  - repeat constructor; cbn; try discriminate; try reflexivity; auto.
+  - intros p. constructor.
+  - cbn [queries_ok ex_items_tight]. repeat split. exists 1. split; reflexivity.
   - reflexivity.
 Qed.
